@@ -1636,6 +1636,158 @@ class _Random(object):
 random = _Random()
 
 
+# ---------------------------------------------------------------------------
+# equivalents in terms of the functions above (idioms a refactoring of the
+# package may switch to)
+# ---------------------------------------------------------------------------
+
+def full(shape, fill_value, dtype=None):
+    shape = _shape_arg(shape) if shape != () else ()
+    dt = norm_dtype(dtype) if dtype is not None else _kind_of(fill_value)
+    v = cast_scalar(fill_value, dt) if dt else fill_value
+    return ndarray.from_flat([v] * _prod(shape), shape, dt)
+
+
+def full_like(a, fill_value, dtype=None):
+    a = asarray(a)
+    return full(a.shape, fill_value, dtype or a.dt)
+
+
+def ones_like(a):
+    a = asarray(a)
+    return ones(a.shape, a.dt)
+
+
+def empty(shape, dtype=float):
+    return zeros(shape, dtype)
+
+
+def count_nonzero(a, axis=None):
+    a = asarray(a)
+    if a.dt == 'bool':
+        return sum(a, axis=axis)
+    return sum(a != 0, axis=axis)
+
+
+def nonzero(a):
+    a = asarray(a)
+    if a.ndim != 1:
+        raise NotModelled('np.nonzero of a %d-d array' % a.ndim)
+    return (flatnonzero(a),)
+
+
+def compress(condition, a, axis=None):
+    a = asarray(a)
+    idx = flatnonzero(condition)
+    if axis is None:
+        return a.reshape(a.size)[idx]
+    if axis == 0:
+        return a[idx]
+    if axis in (1, -1) and a.ndim == 2:
+        return a[:, idx]
+    raise NotModelled('np.compress axis %r' % (axis,))
+
+
+def take(a, indices, axis=None):
+    a = asarray(a)
+    if axis is None:
+        return a.reshape(a.size)[indices]
+    if axis == 0:
+        return a[indices]
+    raise NotModelled('np.take axis %r' % (axis,))
+
+
+def column_stack(arrays):
+    cols = []
+    for x in arrays:
+        x = asarray(x)
+        if x.ndim == 1:
+            x = x.reshape(x.size, 1)
+        cols.append(x)
+    return concatenate(cols, axis=1)
+
+
+def hstack(arrays):
+    arrs = [atleast_1d(asarray(a)) for a in arrays]
+    return concatenate(arrs, axis=0 if arrs[0].ndim == 1 else 1)
+
+
+def stack(arrays, axis=0):
+    if axis != 0:
+        raise NotModelled('np.stack axis %r' % (axis,))
+    arrs = [asarray(a) for a in arrays]
+    return concatenate([x.reshape(*((1,) + tuple(x.shape))) for x in arrs],
+                       axis=0)
+
+
+def ravel(a):
+    a = asarray(a)
+    return a.reshape(a.size)
+
+
+def transpose(a):
+    return asarray(a).T
+
+
+def minimum(a, b):
+    def f(x, y):
+        if isinstance(x, float) and x != x:
+            return x
+        if isinstance(y, float) and y != y:
+            return y
+        if not is_sv(x) and not is_sv(y):
+            return x if x <= y else y
+        return sv_if(x <= y, x, y)
+    return _map2(a, b, f)
+
+
+def nanmin(a, axis=None):
+    return -nanmax(-asarray(a), axis=axis)
+
+
+def square(a):
+    a = asarray(a) if isinstance(a, (list, tuple)) else a
+    return a * a
+
+
+def absolute(a):
+    return abs(a)
+
+
+def negative(a):
+    return -(asarray(a) if isinstance(a, (list, tuple)) else a)
+
+
+def add(a, b): return _binary(a, b, 'add') if False else asarray(a) + b
+def subtract(a, b): return asarray(a) - b
+def multiply(a, b): return asarray(a) * b
+def divide(a, b): return asarray(a) / b
+true_divide = divide
+
+
+def logical_and(a, b): return asarray(a) & asarray(b)
+def logical_or(a, b): return asarray(a) | asarray(b)
+def logical_not(a): return ~asarray(a, dtype=bool)
+
+
+def isinf(a):
+    return _unary_any(a, lambda x: isinstance(x, float) and
+                      x in (inf, -inf), 'bool')
+
+
+def isfinite(a):
+    return _unary_any(a, lambda x: not (isinstance(x, float) and
+                                        (x != x or x in (inf, -inf))), 'bool')
+
+
+def ndim(a):
+    return asarray(a).ndim
+
+
+def size(a):
+    return asarray(a).size
+
+
 def __getattr__(name):
     raise NotModelled('np.%s' % name)
 
